@@ -27,7 +27,7 @@ def probe_case(rng):
     kind = rng.choice(['file-label-leak-down', 'file-label-leak-up', 'file-const-leak-down', 'local-across-region',
                        'local-after-org', 'local-same-name-two-regions', 'file-same-name-two-files', 'local-before-any-label',
                        'const-does-not-open-region', 'nested-leak', 'local-on-directive-line', 'local-on-directive-line',
-                       'region-opened-on-directive-line'])
+                       'region-opened-on-directive-line', 'duplicate-on-one-line', 'duplicate-on-one-line'])
     ref = lambda n: {'k': 'data', 'w': 2, 'vals': [('label', n)]}  # noqa
     A, B, C = [], [], []
     if kind == 'file-label-leak-down':       # includer defines _x, included file uses it -> must be rejected
@@ -61,6 +61,15 @@ def probe_case(rng):
              {'k': rng.choice(['org', 'memzone']), 'e': ('num', 100), 'z': 'GLOBAL', 'join_next': True},
              {'k': 'label', 'name': 'g2', 'join_next': True}, {'k': 'label', 'name': '.l', 'join_next': rng.random() < 0.5},
              {'k': 'data', 'w': 1, 'vals': [v()]}, ref('.l')]
+    elif kind == 'duplicate-on-one-line':
+        # two definitions of one name on the same source line are two definitions (global, file and local names alike);
+        # the same local name in two regions that share a line stays legal
+        nm = rng.choice(['gdup', '_fdup', '.ldup'])
+        legal = nm == '.ldup' and rng.random() < 0.3
+        A = [{'k': 'label', 'name': 'g1'}, {'k': 'data', 'w': 1, 'vals': [v()]},
+             {'k': 'label', 'name': nm, 'join_next': True}] + \
+            ([{'k': 'label', 'name': 'g2', 'join_next': True}] if legal else []) + \
+            [{'k': 'label', 'name': nm, 'join_next': True}, {'k': 'data', 'w': 1, 'vals': [v()]}, ref(nm)]
     elif kind == 'local-same-name-two-regions':   # fine: each resolves to its own
         A = [{'k': 'label', 'name': 'g1'}, {'k': 'label', 'name': '.l'}, ref('.l'), {'k': 'label', 'name': 'g2'},
              {'k': 'data', 'w': 1, 'vals': [v()]}, {'k': 'label', 'name': '.l'}, ref('.l')]
